@@ -32,6 +32,8 @@ def gen_cases(tier, seed):
         cfgd["iteration_limit"] = int(rng.integers(2, 7)) if short else int(rng.choice([15, 40]))
         if rng.random() < 0.3:
             cfgd["rho"] = float(10.0 ** rng.uniform(-4, 0))
+        if rng.random() < 0.25:
+            cfgd.update(C.rare_params(rng, allow_unvalidated=False))
         gopts = {}
         if fam == "DEG" and rng.random() < 0.5:
             gopts = {"variant": int(rng.choice([2, 3]))}  # all-fixed / unconstrained: empty reduced systems, no bound columns
